@@ -41,6 +41,29 @@ Theorem C08_start_while_running_touches_no_device : forall y y',
 Proof. exact start_refused_touches_no_device. Qed.
 Print Assumptions C08_start_while_running_touches_no_device.
 
+(* "is started only when armed": a device start (the call reaching the driver, successful or not) is enabled only in the HAL
+   state Armed, on the stream's open instance ... *)
+Theorem C08_started_only_when_armed : forall s n ok s',
+  (step_stream s ACli (DStoStart n ok) = Some s' -> sto s = Some n /\ sto_st s = HArmed) /\
+  (forall tag, step_stream s ACli (DCamStart n ok tag) = Some s' -> cam s = Some n /\ cam_st s = HArmed).
+Proof. exact start_needs_armed. Qed.
+Print Assumptions C08_started_only_when_armed.
+
+(* ... and acquire_start on a device that is NOT armed (it failed -- frame call, append, start -- and has not been configured
+   since) is refused before the device is touched: no device slot changes, the call continues on acquire_start's error path
+   (which the life-cycle theorem covers like every other trace) *)
+Theorem C08_unarmed_start_refused : forall y i w y',
+  step y (EvS i ACli (StartRefused w)) = Some y' -> slots y' = slots y /\ in_call y' = InStartFail.
+Proof. exact unarmed_start_refused_sys. Qed.
+Print Assumptions C08_unarmed_start_refused.
+
+Theorem C08_unarmed_start_refused_stream : forall s w s',
+  step_stream s ACli (StartRefused w) = Some s' ->
+  cam_slot s' = cam_slot s /\ sto_slot s' = sto_slot s /\ c_start s' = TFailed /\
+  match w with RSink => sto_st s = HAwait /\ c_start s = TBegin | RSrc => cam_st s = HAwait /\ c_start s = TFiltUp | RFilt => False end.
+Proof. exact unarmed_start_refused. Qed.
+Print Assumptions C08_unarmed_start_refused_stream.
+
 (* the runtime reports Running only while a worker of a configured stream is alive ... *)
 Theorem C08_running_report_means_alive : forall y y',
   step y (EvG (GState HRunning)) = Some y' -> (any_running (st0 y) || any_running (st1 y)) = true.
@@ -79,5 +102,23 @@ Example C08_example_start_while_running :
       | None => false
       end
   | _, _, _ => false
+  end = true.
+Proof. vm_compute. reflexivity. Qed.
+
+(* the hypotheses of C08_unarmed_start_refused are met by a trace logged from the REAL runtime (tr_unarmed: a camera, then a storage
+   device, fails; the next acquire_start without a configure is refused before the device is touched; after a configure the
+   acquisition is complete); the whole trace is accepted and the monitor ends with both instances closed *)
+Example C08_example_unarmed_start :
+  match after tr_unarmed before_src_refused, after tr_unarmed before_sink_refused, accepts init_sys tr_unarmed,
+        lc_run (fun _ => LNew) tr_unarmed with
+  | Some y1, Some y2, Some _, Some m =>
+      (match step y1 (EvS false ACli (StartRefused RSrc)) with
+       | Some y' => match in_call y' with InStartFail => true | _ => false end
+       | None => false end)
+      && (match cam_st (st0 y1) with HAwait => true | _ => false end)
+      && (match step y2 (EvS false ACli (StartRefused RSink)) with Some _ => true | None => false end)
+      && (match sto_st (st0 y2) with HAwait => true | _ => false end)
+      && forallb (fun n => match m n with LClosed => true | _ => false end) (opens tr_unarmed)
+  | _, _, _, _ => false
   end = true.
 Proof. vm_compute. reflexivity. Qed.
